@@ -617,6 +617,21 @@ func (env *Env) trCall(x ECall) TV {
 			}
 		}
 		env.fail("unknown constant %s", name)
+	case "fn":
+		// fn("pkg.name"): the function value of a package-level function
+		name := args[0].(EStr).Val
+		i := strings.LastIndex(name, ".")
+		for _, p := range eng.prog.AllPackages() {
+			if p.Pkg.Path() == name[:i] {
+				if f, ok := p.Members[name[i+1:]].(*ssa.Function); ok {
+					return fc.v(f)
+				}
+			}
+		}
+		env.fail("unknown function value %s", name)
+	case "gt":
+		// gt("IdentPtrType"): shorthand for the reflect type constant of package goast
+		return env.trCall(ECall{"global", []Expr{EStr{eng.modPath + "/internal/goast." + args[0].(EStr).Val}}})
 	case "global":
 		name := args[0].(EStr).Val
 		i := strings.LastIndex(name, ".")
